@@ -106,6 +106,7 @@ def run(prop, tier, seed):
             v.cov["samples"].append([desc(e) for e in traces[0]["ev"]])
     if prop == "C13":
         burst(v, d, drv, seed, tier)
+        concurrent(v, d, drv, seed, tier)
     v.cov["evaluations"] = len(scen)
     v.cov["distinct_nontrivial"] = sum(1 for s in scen if nontrivial(s["steps"]))
     v.cov["traces_accepted"] = total
@@ -136,12 +137,55 @@ def burst(v, d, drv, seed, tier):
         v.classify(dict(cause="request_channel_full_under_state_lock", tag="C13-request-channel-full"), desc_, dict(scenario=sc[0], event=e))
 
 
+def concurrent(v, d, drv, seed, tier, only=None):
+    """C13: concurrent callers on the real keeper while the plotter runs freely; also on a race-detector build."""
+    if only is None:
+        n = 60 if tier == "quick" else 600
+        behs, w = vlib.tlc_generate(d, "KeeperConcGen.tla", "KeeperConcGen.cfg", n, 2, seed + 5)
+        sc = [dict(sc=20000 + i, seed=seed * 7919 + i, steps=[], opt=dict(mode="conc", spaces=6, init={}, threads=b[0]["threads"])) for i, b in enumerate(behs)]
+    else:
+        sc = [only]
+    sf, tf = os.path.join(d, "conc.json"), os.path.join(d, "conc.ndjson")
+    json.dump(sc, open(sf, "w"))
+    race = vlib.build("keeperdrv", race=True)
+    sites = set()
+    for binpath, label in ((drv, "plain"), (race, "race")):
+        for f in (tf, tf + ".races"):
+            if os.path.exists(f):
+                os.remove(f)
+        out, w = vlib.run_driver(binpath, sf, tf, ["-workers", str(min(vlib.NCPU, 8)), "-stall", "60"], timeout=1500)
+        traces = vlib.read_traces(tf)
+        log("concurrent callers (%s build): %d histories in %.1fs" % (label, len(sc), w))
+        for s_, t in zip(sc, traces):
+            if t.get("dead"):
+                raise vlib.Machinery("concurrent history did not run: %s" % t.get("note"))
+            e = ([x for x in t["ev"] if x.get("a") == "Conc" or x.get("res") == "died"] or [{}])[-1]
+            if e.get("res") != "ok":
+                v.classify(dict(cause="concurrent_callers", res=str(e.get("res"))),
+                           "history %d (%s build): with %d concurrent callers the keeper %s: %s" % (
+                               t["sc"], label, len(s_["opt"]["threads"]), {"hang": "did not return", "panic": "panicked", "died": "killed the process"}.get(e.get("res"), str(e.get("res"))),
+                               "; ".join(e.get("bad", []))[:600] or (t.get("note") or "")[-600:]),
+                           dict(scenario=s_, event=e))
+        if os.path.exists(tf + ".races"):
+            import walletconc
+            sites |= set(walletconc.race_sites(open(tf + ".races").read(), "spacekeeper"))
+    v.cov["concurrent_histories"] = len(sc)
+    v.cov["race_sites_in_keeper"] = [list(x) for x in sorted(sites)]
+    for st in sorted(sites):
+        log("NOTE race detector (keeper): %s" % (st,))
+    v.cov["evaluations_concurrent"] = len(sc) * 2
+
+
 def replay(prop, path, seed):
     v = vlib.Verdict(prop, "quick", seed)
     d = vlib.scratch(prop.lower() + "r-")
     vlib.prep_specs(d)
     drv = vlib.build("keeperdrv")
     r = json.load(open(path))["replay"]
+    if r["scenario"].get("opt", {}).get("mode") == "conc":
+        concurrent(v, d, drv, seed, "quick", only=r["scenario"])
+        v.cov.update(states=1, transitions=1, evaluations=1, distinct_nontrivial=1)
+        return v.finish()
     scen = [r["scenario"]]
     sf, tf = os.path.join(d, "scen.json"), os.path.join(d, "trace.ndjson")
     json.dump(scen, open(sf, "w"))
